@@ -910,8 +910,14 @@ func (p *queryPlan) projectAndGroupBy() error {
 				aap.Acc = table.NewCountAccumulator()
 			}
 		case lexer.ItemSum:
-			cell := p.tbl.Rows()[0][prj.Binding]
-			if cell.L == nil {
+			rows := p.tbl.Rows()
+			if len(rows) == 0 {
+				// Nothing to sum; the reduced table stays empty whatever the accumulator.
+				aap.Acc = table.NewSumInt64LiteralAccumulator(0)
+				break
+			}
+			cell := rows[0][prj.Binding]
+			if cell == nil || cell.L == nil {
 				return fmt.Errorf("can only sum int64 and float64 literals; found %s instead for binding %q", cell, prj.Binding)
 			}
 			switch cell.L.Type() {
